@@ -56,6 +56,9 @@ type c08Doc struct {
 	Class string `json:"class"` // generic | hook | dropped | blank | comment
 	File  string `json:"file"`
 	Pos   int    `json:"pos"`
+	// Keep: the document carries helm.sh/resource-policy: keep (it stays in the manifest and is left out of the
+	// documents an uninstall deletes, without disturbing the order of the others)
+	Keep bool `json:"keep,omitempty"`
 }
 
 type c08File struct {
@@ -111,6 +114,10 @@ func c08GenA(t *rapid.T) c08ACase {
 					}
 				} else if rapid.Bool().Draw(t, "otherAnnotation") {
 					ann = "  annotations:\n    foo: bar\n"
+					if rapid.IntRange(0, 2).Draw(t, "keepPolicy") == 0 {
+						ann = "  annotations:\n    foo: bar\n    \"helm.sh/resource-policy\": keep\n"
+						g.Keep = true
+					}
 				}
 				g.Text = fmt.Sprintf("apiVersion: v1\nkind: %s\nmetadata:\n  name: id%dz\n%sdata:\n  k: v", g.Kind, id, ann)
 				if rapid.IntRange(0, 5).Draw(t, "crlf") == 0 {
@@ -364,9 +371,13 @@ func c08CheckOrder(fail func(sig, d string), which string, rank map[string]int, 
 	for k, bs := range byKind {
 		var exp []c08Doc
 		for _, g := range c.Docs {
-			if g.Class == "generic" && g.Kind == k {
+			if g.Class == "generic" && g.Kind == k && !(which == "uninstall" && g.Keep) {
 				exp = append(exp, g)
 			}
+		}
+		if len(exp) != len(bs) {
+			fail("C08:A/"+which+"-number-of-documents-of-a-kind-differs", fmt.Sprintf("kind %s: %d documents, expected %d", k, len(bs), len(exp)))
+			return
 		}
 		sort.SliceStable(exp, func(i, j int) bool {
 			if exp[i].File != exp[j].File {
